@@ -65,6 +65,11 @@ func sendBufSink(info *types.Info, n ast.Node) ast.Expr {
 		if kv, ok := el.(*ast.KeyValueExpr); ok {
 			if k, ok := kv.Key.(*ast.Ident); ok && k.Name == "Cmd" {
 				if _, isConst := core.StringConst(info, kv.Value); !isConst {
+					if d := pat.DefOf(info, identOf(kv.Value)); d != nil {
+						if _, isConst := core.StringConst(info, d); isConst {
+							continue // a local holding a constant command name
+						}
+					}
 					return kv.Value
 				}
 			}
@@ -119,6 +124,21 @@ func liftSink(c *core.Ctx, base func(*types.Info, ast.Node) ast.Expr) func(*type
 	}
 }
 
+// siteOpaque: the anchored functions of the sites stay calls in every view (a sink such as doFetch
+// is recognised by its call).
+func siteOpaque(c *core.Ctx) func(*types.Func) bool {
+	set := map[*types.Func]bool{}
+	for _, s := range siteTable {
+		if fn := c.LookupFunc(s.pkg, s.recv, s.fn); fn != nil {
+			set[fn.Obj] = true
+		}
+	}
+	if fn := c.LookupFunc(pkgRun, "dbRumperExecutor", "doFetch"); fn != nil {
+		set[fn.Obj] = true
+	}
+	return func(f *types.Func) bool { return set[f] }
+}
+
 var siteTable = []site{
 	{name: "full", pkg: pkgSync, recv: "DbSyncer", fn: "syncRDBFile", sink: callSink(pkgUtils, "", "RestoreRdbEntry", 1), cells: []cell{
 		{pred: "FilterDB", field: "DB", why: "a key of an excluded database is restored by full sync"},
@@ -154,11 +174,14 @@ func sites(c *core.Ctx) {
 		info := fn.Pkg.TypesInfo
 		found := 0
 		s.sink = liftSink(c, s.sink)
-		for _, b := range tt.BodiesOf(c.Program, fn) {
-			x := tt.New(b.G)
+		for _, b := range tt.ViewBodies(c.Program, fn, "c06", siteOpaque(c)) {
+			x := b.View.X(c.Program)
 			for _, sp := range b.G.Points(func(n ast.Node) bool { return s.sink(info, n) != nil }) {
-				found++
 				root := rootVar(info, s.sink(info, sp.Node()))
+				if root != nil && b.Params[root] {
+					continue // the sink of a helper on its own parameter: analysed at the call sites
+				}
+				found++
 				expected := map[string]bool{}
 				for _, cl := range s.cells {
 					expected[cl.pred] = true
@@ -274,7 +297,7 @@ func checkCell(c *core.Ctx, s site, cl cell, fn *core.Fn, b tt.Body, x *tt.X, sp
 	var viaExprs []ast.Expr                 // what a proxy helper does with its parameter before calling the predicate
 	predObj := types.Object(pf.Obj)
 	for _, call := range core.Calls(b.Root, info, func(call *ast.CallExpr, callee types.Object) bool {
-		return funcValue(info, fn.Decl.Body, call.Fun) == types.Object(pf.Obj)
+		return funcValue(info, b.Outer, call.Fun) == types.Object(pf.Obj)
 	}) {
 		if cl.tracked || root != nil && len(call.Args) > 0 && tt.MentionsResolved(info, b.Root, call.Args[0], root, 2) {
 			mine = append(mine, call)
@@ -298,7 +321,7 @@ func checkCell(c *core.Ctx, s site, cl cell, fn *core.Fn, b tt.Body, x *tt.X, sp
 			if h := c.FnOf(core.CalleeFunc(info, call)); h != nil && h.Decl.Body != nil && strings.HasPrefix(h.Obj.Pkg().Path(), core.Module) {
 				params, results, hbody, hg, hobj, samePkg = h.Decl.Type.Params, h.Decl.Type.Results, h.Decl.Body, cfgq.Of(c.Program, h), h.Obj, h.Pkg.TypesInfo == info
 			} else if id, ok := ast.Unparen(call.Fun).(*ast.Ident); ok {
-				if d, ok := tt.SingleDef(info, fn.Decl.Body, id); ok && d.Rhs != nil && d.Index == -1 {
+				if d, ok := tt.SingleDef(info, b.Outer, id); ok && d.Rhs != nil && d.Index == -1 {
 					if lit, ok := ast.Unparen(d.Rhs).(*ast.FuncLit); ok {
 						params, results, hbody, hg, hobj, samePkg = lit.Type.Params, lit.Type.Results, lit.Body, cfgq.OfLit(c.Program, info, lit), core.ObjOf(info, id), true
 					}
@@ -323,7 +346,7 @@ func checkCell(c *core.Ctx, s site, cl cell, fn *core.Fn, b tt.Body, x *tt.X, sp
 			}
 		}
 		if len(mine) == 0 {
-			if indirect || core.Mentions(info, fn.Decl.Body, pf.Obj) {
+			if indirect || core.Mentions(info, b.Outer, pf.Obj) {
 				c.Undecidedf("R3.matrix", key, sink.Pos(), "%s is applied through a helper function or a function value, not analysed", cl.pred)
 			} else {
 				c.Failf("R3.matrix", key, sink.Pos(), "the %s path never evaluates filter.%s for the item it sends: %s", s.name, cl.pred, cl.why)
@@ -332,10 +355,10 @@ func checkCell(c *core.Ctx, s site, cl cell, fn *core.Fn, b tt.Body, x *tt.X, sp
 		}
 	}
 	exempt := func(f cfgq.Fact) bool {
-		if cl.tracked && cmdIs(info, fn.Decl.Body, f, isPing) {
+		if cl.tracked && cmdIs(info, b.Outer, f, isPing) {
 			return true // PING carries no data and is forwarded whatever the database
 		}
-		return cl.skipCmd && cmdIs(info, fn.Decl.Body, f, neverFiltered)
+		return cl.skipCmd && cmdIs(info, b.Outer, f, neverFiltered)
 	}
 	redefines := func(n ast.Node) bool {
 		if cl.tracked || root == nil {
@@ -456,7 +479,7 @@ func checkCell(c *core.Ctx, s site, cl cell, fn *core.Fn, b tt.Body, x *tt.X, sp
 			c.Undecidedf("R4.polarity", key, call.Pos(), "the answer of %s is not kept in a boolean local", cl.pred)
 			return
 		}
-		for _, d := range tt.DefsOf(info, fn.Decl.Body, v) {
+		for _, d := range tt.DefsOf(info, b.Outer, v) {
 			if _, isDecl := d.Stmt.(*ast.ValueSpec); isDecl && d.Rhs == nil {
 				continue // zero value: false
 			}
@@ -526,7 +549,7 @@ func checkCell(c *core.Ctx, s site, cl cell, fn *core.Fn, b tt.Body, x *tt.X, sp
 		for _, bk := range g.CFG.Blocks {
 			for si := range bk.Succs {
 				if !bk.Live || !x.Establishes(bk, si, func(f cfgq.Fact) bool {
-					return cmdIs(info, fn.Decl.Body, f, func(s string) bool { return s == "select" })
+					return cmdIs(info, b.Outer, f, func(s string) bool { return s == "select" })
 				}) {
 					continue
 				}
@@ -727,6 +750,14 @@ func funcValue(info *types.Info, root ast.Node, fun ast.Expr) types.Object {
 	return nil
 }
 
+func identOf(e ast.Expr) *ast.Ident {
+	id, _ := ast.Unparen(e).(*ast.Ident)
+	if id == nil {
+		return &ast.Ident{Name: "\x00"}
+	}
+	return id
+}
+
 func viaText(v string) string {
 	if v == "" {
 		return ""
@@ -742,81 +773,161 @@ func rumpKeys(c *core.Ctx) {
 		return
 	}
 	info := fn.Pkg.TypesInfo
-	g := cfgq.Of(c.Program, fn)
+	view := tt.ViewOf(c.Program, fn, "c06keys", nil)
+	g, x := view.G, view.X(c.Program)
 	key := "rump-keys/FilterKey"
-	// the send: dre.keyChan <- &KeyNode{k, ...} with k ranging over the key list
+	keyListFuncs = map[string]bool{"doFetch": true}
+	for _, h := range view.Inlined {
+		keyListFuncs[h.Decl.Name.Name] = true
+	}
+	// the send: dre.keyChan <- &KeyNode{<key>, ...} where <key> is the element of a loop over the key list
 	var listObj types.Object
+	var send ast.Node
 	for _, p := range g.Points(func(n ast.Node) bool {
 		s, ok := n.(*ast.SendStmt)
 		return ok && core.IsFieldNamed(info, s.Chan, "dbRumperExecutor", "keyChan")
 	}) {
-		b := pat.Expr("&KeyNode{_k, _v, _t, _d}").Match(info, p.Node().(*ast.SendStmt).Value, nil)
-		if b == nil {
+		val := ast.Unparen(p.Node().(*ast.SendStmt).Value)
+		if u, ok := val.(*ast.UnaryExpr); ok && u.Op == token.AND {
+			val = ast.Unparen(u.X)
+		}
+		lit, ok := val.(*ast.CompositeLit)
+		if !ok || len(lit.Elts) == 0 {
 			continue
 		}
-		if d, ok := tt.SingleDef(info, fn.Decl.Body, b["_k"].(ast.Expr)); ok && d.Range != nil && !d.IsKey {
-			listObj = core.ObjOf(info, d.Rhs)
+		var keyExpr ast.Expr
+		for i, el := range lit.Elts {
+			if kv, isKV := el.(*ast.KeyValueExpr); isKV {
+				if id, ok := kv.Key.(*ast.Ident); ok && id.Name == "key" {
+					keyExpr = kv.Value
+				}
+			} else if i == 0 {
+				keyExpr = el
+			}
+		}
+		loop := x.LoopOf(p.Node())
+		list, isElem := tt.LoopElem(info, loop)
+		if keyExpr == nil || list == nil {
+			continue
+		}
+		if isElem(keyExpr) || isElem(tt.Resolve(info, view.Body, keyExpr, 3)) {
+			listObj, send = identObj(info, list), p.Node()
 		}
 	}
 	if listObj == nil {
-		c.Undecidedf("R3.matrix", key, fn.Decl.Pos(), "cannot find `keyChan <- &KeyNode{k, ...}` with k ranging over a key list")
+		c.Undecidedf("R3.matrix", key, fn.Decl.Pos(), "cannot find `keyChan <- &KeyNode{key, ...}` with the key being the element of a loop over a key list")
 		return
 	}
-	keyListFuncs = map[string]bool{"doFetch": true}
-	if keyList(c, fn, listObj, pf, 2) == 0 {
+	kl := &keyLister{c: c, info: info, pf: pf, body: view.Body, g: g, x: x, send: send, seen: map[types.Object]bool{}}
+	if kl.list(listObj, listObj, 3) == 0 {
 		c.Undecidedf("R3.matrix", key, fn.Decl.Pos(), "no filtered `keys = append(keys, key)` found for the key list of doFetch")
 	}
 }
 
-// keyListFuncs: the functions whose handling of the rump key list was analysed by keyList.
+func identObj(info *types.Info, e ast.Expr) types.Object {
+	id, ok := ast.Unparen(e).(*ast.Ident)
+	if !ok {
+		return nil
+	}
+	return core.ObjOf(info, id)
+}
+
+// keyListFuncs: the functions whose handling of the rump key list was analysed.
 var keyListFuncs = map[string]bool{}
 
-// unfilteredOnly: node n (an alias of the unfiltered scan result) is reachable only when both key lists are empty.
-func unfilteredOnly(c *core.Ctx, info *types.Info, x *tt.X, n ast.Node) {
-	for _, f := range []string{fKB, fKW} {
-		f := f
-		ok, w := x.OnlyVia(cfgq.Point{}, n, func(ft cfgq.Fact) bool {
-			arg, pol, ok := lenTest(info, ft.Expr)
-			if !ok {
-				return false
-			}
-			name, isConf := tt.IsConfField(info, arg, f)
-			return isConf && name == f && ft.Val != pol
-		})
-		c.Check("R3.matrix", "rump-keys/unfiltered-only-without-"+f, n.Pos(), ok, "the scanned keys may be copied unfiltered only when "+f+" is empty; otherwise an excluded key is dumped and copied by rump", w...)
+type keyLister struct {
+	c    *core.Ctx
+	info *types.Info
+	pf   *core.Fn
+	body *ast.BlockStmt
+	g    *cfgq.Graph
+	x    *tt.X
+	send ast.Node // where the list is consumed
+	seen map[types.Object]bool
+}
+
+func (kl *keyLister) emptyFact(f string) func(cfgq.Fact) bool {
+	return func(ft cfgq.Fact) bool {
+		arg, pol, ok := lenTest(kl.info, ft.Expr)
+		if !ok {
+			return false
+		}
+		name, isConf := tt.IsConfField(kl.info, arg, f)
+		return isConf && name == f && ft.Val != pol
 	}
 }
 
-// keyList checks every definition of the key list listObj in fn (following one level of a
-// same-package helper that returns the list) and returns the number of filtered appends found.
-func keyList(c *core.Ctx, fn *core.Fn, listObj types.Object, pf *core.Fn, depth int) int {
-	info := fn.Pkg.TypesInfo
-	g := cfgq.Of(c.Program, fn)
-	x := tt.New(g)
+// unfiltered: the definition at node n makes top (the list that is sent) the unfiltered scan
+// result. That value may reach the send only when both key lists are empty: there must be no path
+// entry -> n -> send on which n's value survives (no other definition of top that does not extend
+// it) and no branch establishes that the list is empty.
+func (kl *keyLister) unfiltered(n ast.Node, top types.Object) {
+	np, ok := kl.g.Find(n)
+	if !ok {
+		return
+	}
+	kills := func(m ast.Node) bool {
+		if m == n {
+			return false
+		}
+		for _, d := range tt.DefsOf(kl.info, m, top) {
+			if d.Stmt == m && (d.Rhs == nil || !core.Mentions(kl.info, d.Rhs, top)) {
+				return true
+			}
+		}
+		return false
+	}
+	for _, f := range []string{fKB, fKW} {
+		empty := kl.emptyFact(f)
+		avoid := func(b *cfg.Block, si int) bool { return kl.x.Establishes(b, si, empty) }
+		w1 := kl.g.Path(cfgq.Query{From: kl.g.Entry(), Target: func(m ast.Node) bool { return m == np.Node() }, AvoidEdge: avoid})
+		var w2 []string
+		if w1 != nil {
+			w2 = kl.g.Path(cfgq.Query{From: np, After: true, Avoid: kills, Target: func(m ast.Node) bool { return m == kl.send }, AvoidEdge: avoid})
+		}
+		kl.c.Check("R3.matrix", "rump-keys/unfiltered-only-without-"+f, n.Pos(), w1 == nil || w2 == nil,
+			"the scanned keys may be copied unfiltered only when "+f+" is empty; otherwise an excluded key is dumped and copied by rump", append(w1, w2...)...)
+	}
+}
+
+// list checks every definition of the list variable obj (a carrier of the list top that is sent)
+// and returns the number of filtered appends found.
+func (kl *keyLister) list(obj, top types.Object, depth int) int {
+	c, info, g, x := kl.c, kl.info, kl.g, kl.x
 	key := "rump-keys/FilterKey"
 	why := "an excluded key is dumped and copied by rump"
-	keyListFuncs[fn.Decl.Name.Name] = true
+	if kl.seen[obj] || depth == 0 {
+		return 0
+	}
+	kl.seen[obj] = true
 	nAppend := 0
-	for _, d := range tt.DefsOf(info, fn.Decl.Body, listObj) {
+	for _, d := range tt.DefsOf(info, kl.body, obj) {
 		as, ok := d.Stmt.(*ast.AssignStmt)
-		if !ok || d.Rhs == nil {
+		if !ok || d.Rhs == nil || d.Index != -1 {
+			if ok && d.Index >= 0 && obj == top {
+				kl.unfiltered(as, top) // result of a multi-value call: the scan itself
+			}
 			continue // var declaration
 		}
-		pt, ok := g.Find(as)
-		if !ok {
+		if _, ok := g.Find(as); !ok {
 			continue
 		}
-		if b := pat.Stmt("_l = append(_l, _x)").Match(info, as, nil); b != nil {
+		if b := pat.Expr("append(_l, _x)").Match(info, d.Rhs, nil); b != nil && identObj(info, b["_l"].(ast.Expr)) == obj {
 			nAppend++
 			item := rootVar(info, b["_x"].(ast.Expr))
+			itemRoot := tt.Resolve(info, kl.body, b["_x"].(ast.Expr), 3)
 			var calls []*ast.CallExpr
-			for _, call := range core.Calls(fn.Decl.Body, info, func(call *ast.CallExpr, callee types.Object) bool { return callee == types.Object(pf.Obj) }) {
-				if item != nil && len(call.Args) == 1 && rootVar(info, call.Args[0]) == item {
+			for _, call := range core.Calls(kl.body, info, func(call *ast.CallExpr, callee types.Object) bool { return callee == types.Object(kl.pf.Obj) }) {
+				if len(call.Args) == 1 && (item != nil && rootVar(info, call.Args[0]) == item || tt.SameExpr(info, tt.Resolve(info, kl.body, call.Args[0], 3), itemRoot)) {
 					calls = append(calls, call)
 				}
 			}
 			if len(calls) == 0 {
-				c.Failf("R3.matrix", key, as.Pos(), "a scanned key is put on the list of keys to copy without evaluating filter.FilterKey for it: %s", why)
+				if core.Mentions(info, kl.body, kl.pf.Obj) {
+					c.Undecidedf("R3.matrix", key, as.Pos(), "cannot relate the key that is appended to an evaluation of filter.FilterKey")
+				} else {
+					c.Failf("R3.matrix", key, as.Pos(), "a scanned key is put on the list of keys to copy without evaluating filter.FilterKey for it: %s", why)
+				}
 				continue
 			}
 			passFact := func(f cfgq.Fact) bool {
@@ -829,52 +940,67 @@ func keyList(c *core.Ctx, fn *core.Fn, listObj types.Object, pf *core.Fn, depth 
 			}
 			ok, w := x.OnlyVia(cfgq.Point{}, as, passFact)
 			c.Check("R3.matrix", key, as.Pos(), ok, "a scanned key may be put on the list of keys to copy only after filter.FilterKey answered 'pass'; otherwise "+why, w...)
+			loop := x.LoopOf(as)
 			for _, call := range calls {
-				cp, _ := g.Find(call)
 				var w []string
-				for si := range cp.B.Succs {
-					if x.Cond(cp.B) == nil || x.Establishes(cp.B, si, passFact) || w != nil {
+				for _, bk := range g.CFG.Blocks {
+					if !bk.Live || x.Cond(bk) == nil {
 						continue
 					}
-					w = x.Reach(tt.ReachQuery{From: cp, FromSucc: si, Env: tt.Env{}, Target: func(n ast.Node) bool { return n == ast.Node(as) },
-						CutBlock: func(bk *cfg.Block) bool {
-							rs, ok := bk.Stmt.(*ast.RangeStmt)
-							return ok && bk.Kind == cfg.KindRangeLoop && rs.Value != nil && core.ObjOf(info, rs.Value) == item
-						}})
+					for si := range bk.Succs {
+						mentions := x.Establishes(bk, si, func(f cfgq.Fact) bool { return ast.Unparen(f.Expr) == ast.Expr(call) }) ||
+							x.Establishes(bk, 1-si, func(f cfgq.Fact) bool { return ast.Unparen(f.Expr) == ast.Expr(call) })
+						if !mentions || len(bk.Succs) != 2 || x.Establishes(bk, si, passFact) || w != nil {
+							continue
+						}
+						w = x.Reach(tt.ReachQuery{From: cfgq.Point{B: bk}, FromSucc: si, Env: tt.Env{}, Target: func(n ast.Node) bool { return n == ast.Node(as) },
+							CutBlock: func(b2 *cfg.Block) bool {
+								return loop != nil && (b2.Kind == cfg.KindRangeLoop || b2.Kind == cfg.KindForLoop) && b2.Stmt == loop
+							}})
+					}
 				}
 				c.Check("R4.polarity", key, call.Pos(), w == nil, "'return true means not pass': a key for which filter.FilterKey answered true must not be put on the list of keys to copy; otherwise "+why, w...)
 			}
 			continue
 		}
-		if call, ok := ast.Unparen(d.Rhs).(*ast.CallExpr); ok {
+		rhs := ast.Unparen(d.Rhs)
+		if call, ok := rhs.(*ast.CallExpr); ok {
 			if id, ok := call.Fun.(*ast.Ident); ok && id.Name == "make" {
 				continue
 			}
 		}
-		// the list is produced by a helper of the same package: look at what it returns
-		if call, ok := ast.Unparen(d.Rhs).(*ast.CallExpr); ok && depth > 0 {
+		if cl, ok := rhs.(*ast.CompositeLit); ok && len(cl.Elts) == 0 {
+			continue // an empty list
+		}
+		if core.IsNil(info, rhs) {
+			continue
+		}
+		// a copy of another list variable: the same list
+		if o, isVar := identObj(info, rhs).(*types.Var); isVar && !o.IsField() && o.Pkg() != nil && o.Parent() != o.Pkg().Scope() && kl.filtered(o, 3) {
+			nAppend += kl.list(o, top, depth-1)
+			continue
+		}
+		// the list is produced by a helper that could not be inlined: look at what it returns
+		if call, ok := rhs.(*ast.CallExpr); ok {
 			if h := c.FnOf(core.CalleeFunc(info, call)); h != nil && h.Decl.Body != nil && h.Pkg.TypesInfo == info {
-				hg := cfgq.Of(c.Program, h)
-				hx := tt.New(hg)
+				hv := tt.ViewOf(c.Program, h, "c06keys", nil)
 				keyListFuncs[h.Decl.Name.Name] = true
 				okRets := true
-				core.Inspect(h.Decl.Body, func(n ast.Node) bool {
+				core.Inspect(hv.Body, func(n ast.Node) bool {
 					r, isRet := n.(*ast.ReturnStmt)
 					if !isRet {
 						return true
 					}
-					if len(r.Results) != 1 {
+					o, _ := identObj(info, firstResult(r)).(*types.Var)
+					if len(r.Results) != 1 || o == nil || o.IsField() {
 						okRets = false
 						return true
 					}
-					o, _ := core.ObjOf(info, r.Results[0]).(*types.Var)
-					switch {
-					case o == nil || o.IsField():
-						okRets = false
-					case len(tt.DefsOf(info, h.Decl.Body, o)) == 0: // a parameter: the unfiltered list
-						unfilteredOnly(c, info, hx, r)
-					default:
-						nAppend += keyList(c, h, o, pf, depth-1)
+					hk := &keyLister{c: c, info: info, pf: kl.pf, body: hv.Body, g: hv.G, x: hv.X(c.Program), send: r, seen: map[types.Object]bool{}}
+					if hk.filtered(o, 3) {
+						nAppend += hk.list(o, o, 3)
+					} else {
+						hk.unfiltered(r, o)
 					}
 					return true
 				})
@@ -884,8 +1010,57 @@ func keyList(c *core.Ctx, fn *core.Fn, listObj types.Object, pf *core.Fn, depth 
 				continue
 			}
 		}
-		// alias of the unfiltered list: only when no key list is configured
-		unfilteredOnly(c, info, x, pt.Node())
+		// anything else: the unfiltered scan result (or an alias of it)
+		kl.unfiltered(as, top)
 	}
 	return nAppend
+}
+
+func firstResult(r *ast.ReturnStmt) ast.Expr {
+	if len(r.Results) == 0 {
+		return nil
+	}
+	return r.Results[0]
+}
+
+// filtered: the list variable o is built by appending (make/empty literal + append(o, ..)), as
+// opposed to being the scan result or an alias of it.
+func (kl *keyLister) filtered(o types.Object, depth int) bool {
+	if depth == 0 {
+		return false
+	}
+	appends := 0
+	for _, d := range tt.DefsOf(kl.info, kl.body, o) {
+		if d.Rhs == nil {
+			if _, isDecl := d.Stmt.(*ast.ValueSpec); isDecl {
+				continue
+			}
+			return false
+		}
+		if d.Index != -1 {
+			return false
+		}
+		rhs := ast.Unparen(d.Rhs)
+		if b := pat.Expr("append(_l, _x)").Match(kl.info, rhs, nil); b != nil && identObj(kl.info, b["_l"].(ast.Expr)) == o {
+			appends++
+			continue
+		}
+		if call, ok := rhs.(*ast.CallExpr); ok {
+			if id, ok := call.Fun.(*ast.Ident); ok && id.Name == "make" {
+				continue
+			}
+		}
+		if cl, ok := rhs.(*ast.CompositeLit); ok && len(cl.Elts) == 0 {
+			continue
+		}
+		if core.IsNil(kl.info, rhs) {
+			continue
+		}
+		if v, isVar := identObj(kl.info, rhs).(*types.Var); isVar && !v.IsField() && kl.filtered(v, depth-1) {
+			appends++
+			continue
+		}
+		return false
+	}
+	return appends > 0
 }
